@@ -115,7 +115,7 @@ func (r *run) crashImages(root, template string, log []simos.Effect, seed uint64
 	n := len(idx) / 136
 	rng := hx.NewRng(seed ^ 0x7C)
 	var cuts []int
-	for back := 1; back <= 6 && back <= n-prefixLen+2; back++ {
+	for back := 1; back <= 6 && back <= n-r.cfg.plen()+2; back++ {
 		cuts = append(cuts, (n-back)*136)
 	}
 	if n > 2 {
@@ -219,6 +219,7 @@ func (r *run) recoverImage(root, template string, log []simos.Effect, k int, tru
 	cfg2 := *r.cfg
 	cfg2.ClientRecovery = (k%2 == 0) != r.cfg.ClientRecovery
 	sub.cfg = &cfg2
+	sub.lenientTip = true
 	res := simrt.Run(simrt.Config{Seed: r.cfg.SchedSeed ^ uint64(k)*0x9E37, YieldP: r.cfg.YieldP / 2, MaxConsec: r.cfg.MaxConsec, StepBudget: 30_000_000}, func() {
 		sub.boot()
 		th, theight := sub.n.Tip()
@@ -234,7 +235,7 @@ func (r *run) recoverImage(root, template string, log []simos.Effect, k int, tru
 			return
 		}
 		// every block of the recovered chain was handed to the node before the crash
-		for p := tn; p != nil && p.Blk != nil && p.Height > prefixLen-8; p = p.Parent {
+		for p := tn; p != nil && p.Blk != nil && int(p.Height) > r.cfg.plen()-8; p = p.Parent {
 			if at, seen := r.delivAt[p.Hash]; (!seen || at > k) && !r.isPrefix[p.Hash] {
 				r.viol("crash.tip-from-the-future", "after reopening a crash image the chain contains block %s which had not been delivered before the crash. %s", hs(p.Hash), desc)
 				ok = false
